@@ -12,10 +12,11 @@ PROP = {'gen': [],
                'image, glyph; any constraint with min <= max; both glyph settings): layout returns a tree (no underflow, no division by '
                'zero, no invalid clamp); text/flex/container/image/glyph/fill sizes lie within the constraint; render with any layout '
                'tree never panics and changes nothing outside its surface, with layout\'s own tree it completes; every probe leaf is '
-               'handed exactly the window the layout tree records for it; find_path follows the first child containing the position. '
+               'handed exactly the window the layout tree records for it and every leaf kind paints only inside its recorded rectangle; '
+               'find_path follows the first child containing the position. '
                'Model tied to the code by a differential run over trees built through constructors, FlexRef and JSON.',
- 'level_note': 'Trusted: Coq kernel + vm_compute; hand-written model validated by the correspondence run; sums of child extents in '
-               'unbounded N (terminal-sized extents); flex factors dyadic; scroll bar fractions in [0,1]. No axioms (closed).',
+ 'level_note': 'Trusted: Coq kernel + vm_compute; hand-written model validated by the correspondence run; extents saturate at usize::MAX as in '
+               'the repaired code; flex factors dyadic (see assumptions). No axioms (closed).',
  'technique': 'Coq proof (induction over the view tree) + model/implementation correspondence',
  'design_ref': 'DESIGN.md 6.10',
  'n_quick': 2000,
@@ -25,5 +26,7 @@ PROP = {'gen': [],
  'trusted_base': [KERNEL,
                   'hand-written model View/ViewModel.v, tied to the code by the correspondence run',
                   HARNESS],
- 'assumptions': ['sums of child extents stay below 2^64 (constraint extents and leaf sizes are terminal-sized)',
-                 'flex factors are compared on dyadic rationals (quarters), for which the f64 arithmetic of flex_layout is exact']}
+ 'assumptions': ['flex factors of the model are positive numerators over a common power-of-two denominator with remain * factor < 2^53, '
+                 'for which the f64 share arithmetic of flex_layout is exact; trees with other doubles (non-dyadic, extreme ratios) and '
+                 'flex layouts under extents >= 2^40 are run against the property predicate only (no model agreement)',
+                 'scroll bar fractions are rationals num/den (den = 0 meaning ScrollBarPosition::from_counts with total 0)']}
